@@ -1,7 +1,7 @@
 (* Array layer of the layout interpreter: write/read round trips, the strict-order check, padding and size laws.
    Generic in the element codec (hypotheses of the section); instantiated by the struct layer and by C12. *)
 From Symv Require Import Base.Bytes Base.PyOps Base.BytesLemmas Cats.Layout.
-From Coq Require Import Lia ZifyBool.
+From Coq Require Import Lia ZifyBool Sorted.
 Open Scope Z_scope.
 
 Lemma zskipn_app (a b : bytes) : zskipn (Z.of_nat (length a)) (a ++ b) = b.
@@ -115,6 +115,48 @@ Proof.
     destruct (elem_enc R a x); cbn [bind] in Hw; try discriminate.
     destruct (write_array_go OP tm R a k (l1 ++ e1 :: e2 :: l2) (length (l1 ++ e1 :: e2 :: l2))) eqn:Hr; cbn [bind] in Hw; try discriminate.
     eapply IH; eassumption.
+Qed.
+
+(* a successful keyed write means consecutive keys pass the order test: the key sequence is sorted for "not order_bad" *)
+Definition keys_of (l : list value) (ks : list keyv) : Prop := Forall2 (fun e k => elem_key tm R a e = Ok (Some k)) l ks.
+
+Lemma write_sorted : forall l ks pw b,
+  keys_of l ks -> write_array_go OP tm R a pw l (length l) = Ok b ->
+  Sorted.Sorted (fun k1 k2 => order_bad_w OP k1 k2 = false) ks /\
+  match pw, ks with Some p, k :: _ => order_bad_w OP p k = false | _, _ => True end.
+Proof.
+  induction l as [|e l IH]; intros ks pw b Hk Hw; inversion Hk as [|? k ? ks' Hke Hks]; subst.
+  - split; [constructor | destruct pw; exact I].
+  - cbn [length write_array_go] in Hw. rewrite Hke in Hw. cbn [bind] in Hw.
+    match type of Hw with (if ?c then _ else _) = _ => destruct c eqn:Hbad; [discriminate|] end.
+    destruct (elem_enc R a e); cbn [bind] in Hw; try discriminate.
+    destruct (write_array_go OP tm R a (Some k) l (length l)) as [br| |] eqn:Hbr; cbn [bind] in Hw; try discriminate.
+    destruct (IH ks' (Some k) br Hks Hbr) as [Hs Hh]. split.
+    + constructor; [exact Hs|]. destruct ks'; constructor. exact Hh.
+    + destruct pw; [exact Hbad | exact I].
+Qed.
+
+(* the decoder applies the same test to consecutive decoded elements: bytes holding an out-of-order or duplicate pair never decode *)
+Lemma read_sorted : forall fuel rule i pr view l ks,
+  read_array_go OP tm R a true fuel rule i pr view = Ok l -> keys_of l ks ->
+  Sorted.Sorted (fun k1 k2 => order_bad_r OP k1 k2 = false) ks /\
+  match pr, ks with Some p, k :: _ => order_bad_r OP p k = false | _, _ => True end.
+Proof.
+  induction fuel as [|fuel IH]; intros rule i pr view l ks Hr Hk.
+  - cbn [read_array_go] in Hr. destruct (negb _); [|discriminate]. injection Hr as <-. inversion Hk; subst. split; [constructor | destruct pr; exact I].
+  - cbn [read_array_go] in Hr. destruct (negb _).
+    { injection Hr as <-. inversion Hk; subst. split; [constructor | destruct pr; exact I]. }
+    destruct (elem_dec tm R a view) as [e| |]; cbn [bind] in Hr; try discriminate.
+    destruct (elem_size R a e) as [sz| |]; cbn [bind] in Hr; try discriminate.
+    destruct (size_bad OP sz); [discriminate|].
+    destruct (elem_key tm R a e) as [k| |] eqn:Hke; cbn [bind] in Hr; try discriminate.
+    match type of Hr with (if ?c then _ else _) = _ => destruct c eqn:Hbad; [discriminate|] end.
+    match type of Hr with bind (read_array_go _ _ _ _ _ _ _ _ ?p ?v) _ = _ => destruct (read_array_go OP tm R a true fuel rule (i + 1) p v) as [r| |] eqn:Hrec end;
+      cbn [bind] in Hr; try discriminate.
+    injection Hr as <-. inversion Hk as [|? k' ? ks' Hke' Hks]; subst. rewrite Hke in Hke'. injection Hke' as ->.
+    destruct (IH _ _ _ _ _ _ Hrec Hks) as [Hs Hh]. split.
+    + constructor; [exact Hs|]. destruct ks'; constructor. exact Hh.
+    + destruct pr; [exact Hbad | exact I].
 Qed.
 
 (* fill arrays: read until the view is empty *)
